@@ -185,6 +185,21 @@ CHECKS["C11"]["text"] += " Part B4: every other option code in three payload sha
 CHECKS["C12"]["text"] += " Extra-option closure: every other DHCPv6 option code (three payload shapes; those the codec rejects are skipped) in the client message or in a relay layer."
 CHECKS["C14"]["text"] += " Extra-option closure on the DHCPv6 decision (5 types x 3 Server Identifier variants x every other option code)."
 CHECKS["C19"]["text"] += " Chains through the real loader: every ordered pair (thorough: every triple starting with server_id) of the 15 built-in plugins in one section, both protocols, incl. plugins without a set-up function for that protocol; accepted chains are driven with the request battery through HandleMsg4/6."
+# ---- additions of seed round 10
+CHECKS["C01"]["text"] += " Seeds also cover option 57 {0,68,300,576,1500,65535} x client identifier {7,255} x relay agent information {-,100,255} and 'jumbo' requests of 65 507 / 65 535 / 32 768 octets filled with an echoed or a non-echoed option split over consecutive instances, on every branch of the destination cascade."
+CHECKS["C02"]["text"] += " The age operation also advances the virtual clock the instrumented plugin reads (whatever it keeps in memory about 'when' sees the time pass)."
+CHECKS["C08"]["text"] += " Hint lifetimes: the IAPrefix hints carry non-zero preferred/valid fields (valid only, preferred > valid, preferred < valid, all ones)."
+CHECKS["C10"]["text"] += " Every static lookup is repeated with a client identifier (option 61) spelling another probe MAC and an opaque one: the mapping is keyed by the hardware address. A binding run good -> malformed -> good with the real watcher keeps every lookup under the 30 s operation watchdog."
+CHECKS["C11"]["text"] += " Part B5: a client that already holds a lease requests its own / another / an outside / a malformed address (option 50) x flags x giaddr x ciaddr x option 54."
+CHECKS["C13"]["text"] += " E2: the identical datagram twice through the real Serve loop under all schedules up to the preemption bound (retransmission): every copy runs through the whole chain."
+CHECKS["C13"]["engine"] = "E3+E2"
+CHECKS["C14"]["text"] += " Reply kinds: a plugin ahead of server_id makes the reply a NAK (in place or as a fresh object), a fresh ACK, or an OFFER with another siaddr: the reply that leaves carries this server's address in siaddr and option 54."
+CHECKS["C15"]["text"] += " The shaping plugin also returns a freshly built reply object and leaves a misleading skeleton behind (3 x 3 x 2 x 3 x 3 x 2 rows)."
+CHECKS["C16"]["text"] += " Scenarios S1d: the identical datagram twice (retransmission). A real-watcher run good -> malformed -> good with lookups under the operation watchdog reports a refresh/lookup deadlock."
+CHECKS["C18"]["text"] += " Large documents: a 3000-item plugin list (100 KiB) and sections behind 70 / 140 KiB of comments, valid and invalid."
+CHECKS["C20"]["text"] += " Two concurrent callers (every ordered pair of 5 representative calls, incl. the same call twice) under all schedules up to 2 preemptions at statement granularity: plugins/allocators is instrumented for this check."
+CHECKS["C20"]["engine"] = "E3+E2"
+CHECKS["C20"]["technique"] += "; plus stateless model checking of two concurrent calls under the cooperative scheduler"
 ALL = ["C%02d" % i for i in range(1, 21)]
 NA_REASON = "check not built yet in this session (planned, see DESIGN.md section 5); will be claimed once its machinery exists"
 m = {
@@ -199,7 +214,7 @@ m = {
  },
  "engines": [
   {"name": "E1 explicit-state BFS over real handlers", "path": "mc/explore", "serves_properties": ["C02","C03","C04","C05","C06","C07","C08","C09","C10"], "kind_free_text": "explicit-state model checking where every transition is an execution of the real code on a fresh instance (replay of the shortest path + 1 op); state key = hook dump + observer ghost"},
-  {"name": "E2 cooperative scheduler + preemption-bounded DFS", "path": "mc/sched + mc/verifsched + mc/cmd/instr", "serves_properties": ["C01","C02","C03","C04","C05","C06","C08","C11","C13","C16"], "kind_free_text": "stateless model checking of the implementation: sync replaced by a shim through go build -overlay, Yield() injected before every statement, all schedules up to a preemption bound"},
+  {"name": "E2 cooperative scheduler + preemption-bounded DFS", "path": "mc/sched + mc/verifsched + mc/cmd/instr", "serves_properties": ["C01","C02","C03","C04","C05","C06","C08","C11","C13","C16","C20"], "kind_free_text": "stateless model checking of the implementation: sync replaced by a shim through go build -overlay, Yield() injected before every statement, all schedules up to a preemption bound"},
   {"name": "E3 bounded-exhaustive enumerator vs reference model", "path": "mc/checks/*", "serves_properties": ["C01","C10","C11","C12","C13","C14","C15","C17","C18","C19","C20"], "kind_free_text": "complete cross product of small per-dimension alphabets executed on the real code and compared with a reference written from the property text"},
  ],
  "checks": [],
